@@ -312,6 +312,41 @@ static void runEnum(const Opt &o, Ev &ev) {
     ev.exhaustive["all strings over each recogniser's class alphabet up to the length listed under bounds.c13-lengths (exact-size buffers at two offsets + a buffer with tempting continuation bytes)"] = true;
 }
 
+// every byte value: all strings up to length 3 (4 in the thorough tier) over the class alphabet in which one position
+// runs over all 256 byte values - the class representatives stand for classes of the *reference*; a recogniser that
+// singles out a byte inside a class (0xFF read as an end marker through a signed char, a DEL, a control character)
+// is only seen if that very byte is tried
+static void runBytes(const Opt &o, Ev &ev) {
+    armLazy(lazyCur, nullptr);
+    int maxLen = o.quick() ? 3 : 4;
+    uint64_t idx = 0, calls = 0, nts = 0;
+    for (int ri = -2; ri < kNRecs; ri++) {
+        const char *alpha = ri == -1 ? "Az0-/. ,;" : ri == -2 ? "A:*? 1,;\n\"#(" : kRecs[ri].alphabet;
+        size_t na = ri >= 0 ? alphaLen(kRecs[ri]) : strlen(alpha);
+        for (int len = 1; len <= maxLen; len++) {
+            uint64_t total = 1; for (int i = 0; i < len - 1; i++) total *= na;
+            for (int pos = 0; pos < len; pos++) for (uint64_t kx = 0; kx < total; kx++) {
+                if ((idx++ % (uint64_t) o.workers) != (uint64_t) o.worker) continue;
+                S s; uint64_t x = kx;
+                for (int i = 0; i < len; i++) { if (i == pos) s += '?'; else { s += alpha[x % na]; x /= na; } }
+                for (int b = 0; b < 256; b++) {
+                    s[(size_t) pos] = (char) b;
+                    g_curRec = ri; g_curStr = s;
+                    bool nt = false;
+                    std::string m = ri == -1 ? checkSuffix(s) : ri == -2 ? checkUnit(s, &nt) : checkOne(ri, s, &nt);
+                    calls++;
+                    if (nt) nts++;
+                    if (!m.empty()) { failEnum(o, ev, "tok", fmt("rec=%d\nstr=", ri) + hexEnc(s) + "\n", m); if (ev.failures.size() >= 6) return; }
+                }
+            }
+        }
+    }
+    disarmLazy();
+    ev.eval(calls); ev.ntCount(nts);
+    ev.label("all-256-bytes-at-one-position", calls);
+    ev.exhaustive[fmt("every byte value 0..255 at every position of every string up to length %d over each recogniser's class alphabet", maxLen)] = true;
+}
+
 // long grammar-generated tokens
 static std::string body(Src &s, Ev &ev) {
     int kind = (int) s.range(0, 5);
@@ -339,6 +374,7 @@ int main(int argc, char **argv) {
     auto replayTok = [](const Replay &r) { int ri = (int) r.num("rec"); S s = hexDec(r.get("str")); return ri == -1 ? checkSuffix(s) : ri == -2 ? checkUnit(s) : checkOne(ri, s); };
     subs.push_back({"tok", [](const Opt &, Ev &) {}, replayTok});
     subs.push_back({"enum", runEnum, replayTok});
+    subs.push_back({"bytes", runBytes, replayTok});
     subs.push_back({"rand", [](const Opt &o, Ev &ev) { runRandom(o, ev, "rand", 900, o.quick() ? 20000 : 200000, body); },
                     [](const Replay &r) { auto v = r.choices(); Src s(v); Ev e; return body(s, e); }});
     return mainWith(argc, argv, "C13", subs);
